@@ -1,0 +1,82 @@
+// SPDX-FileCopyrightText: 2023 The Pion community <https://pion.ly>
+// SPDX-License-Identifier: MIT
+
+//go:build verif
+
+package netctx
+
+// Machine-checked contracts for /verif (govc).  Comment-only.
+
+//@ arith int
+//@ field conn closed signal
+//@ field packetConn closed signal
+
+// C17, per context-aware operation: exactly one wrapped operation per call (none on a closed conn); its byte count is
+// returned unchanged, its error is not swallowed; the watcher goroutine (contract <op>$1, joined at wg.Wait) may force a
+// past deadline on the wrapped connection while the operation runs and puts the zero deadline back before it ends, so
+// after the call the wrapped conn carries its old deadline or none (unless setting a deadline failed: dlFail).
+//@ func (c *conn) ReadContext$1()
+//@   requires c != nil && c.nextConn != nil && ctx != nil && done != nil
+//@   modifies dlRead, dlFail
+//@   ensures [restore] !dlFail ==> dlRead[ref(c.nextConn)] == old(dlRead[ref(c.nextConn)]) || dlRead[ref(c.nextConn)] == 0
+//@   ensures [others] forall k mathint :: {dlRead[k]} k != ref(c.nextConn) ==> dlRead[k] == old(dlRead[k])
+//@   ensures [mono] old(dlFail) ==> dlFail
+
+//@ func (c *conn) ReadContext(ctx context.Context, b []byte) (n int, err error)
+//@   requires c.nextConn != nil && ctx != nil && c.closed != nil
+//@   modifies b[*], ioN, ioLastN, ioLastNil, dlRead, dlFail
+//@   ensures [once] ioN == old(ioN) || ioN == old(ioN) + 1
+//@   ensures [n] ioN == old(ioN) + 1 ==> n == ioLastN
+//@   ensures [closed] ioN == old(ioN) ==> n == 0 && err != nil
+//@   ensures [error] ioN == old(ioN) + 1 && !ioLastNil ==> err != nil
+//@   ensures [clean] !dlFail ==> dlRead[ref(c.nextConn)] == old(dlRead[ref(c.nextConn)]) || dlRead[ref(c.nextConn)] == 0
+
+//@ func (c *conn) WriteContext$1()
+//@   requires c != nil && c.nextConn != nil && ctx != nil && done != nil
+//@   modifies dlWrite, dlFail
+//@   ensures [restore] !dlFail ==> dlWrite[ref(c.nextConn)] == old(dlWrite[ref(c.nextConn)]) || dlWrite[ref(c.nextConn)] == 0
+//@   ensures [others] forall k mathint :: {dlWrite[k]} k != ref(c.nextConn) ==> dlWrite[k] == old(dlWrite[k])
+//@   ensures [mono] old(dlFail) ==> dlFail
+
+//@ func (c *conn) WriteContext(ctx context.Context, b []byte) (n int, err error)
+//@   requires c.nextConn != nil && ctx != nil && c.closed != nil
+//@   modifies ioN, ioLastN, ioLastNil, dlWrite, dlFail
+//@   ensures [once] ioN == old(ioN) || ioN == old(ioN) + 1
+//@   ensures [n] ioN == old(ioN) + 1 ==> n == ioLastN
+//@   ensures [closed] ioN == old(ioN) ==> n == 0 && err != nil
+//@   ensures [error] ioN == old(ioN) + 1 && !ioLastNil ==> err != nil
+//@   ensures [clean] !dlFail ==> dlWrite[ref(c.nextConn)] == old(dlWrite[ref(c.nextConn)]) || dlWrite[ref(c.nextConn)] == 0
+
+//@ func (p *packetConn) ReadFromContext$1()
+//@   requires p != nil && p.nextConn != nil && ctx != nil && done != nil
+//@   modifies dlRead, dlFail
+//@   ensures [restore] !dlFail ==> dlRead[ref(p.nextConn)] == old(dlRead[ref(p.nextConn)]) || dlRead[ref(p.nextConn)] == 0
+//@   ensures [others] forall k mathint :: {dlRead[k]} k != ref(p.nextConn) ==> dlRead[k] == old(dlRead[k])
+//@   ensures [mono] old(dlFail) ==> dlFail
+
+//@ func (p *packetConn) ReadFromContext(ctx context.Context, b []byte) (n int, addr net.Addr, err error)
+//@   requires p.nextConn != nil && ctx != nil && p.closed != nil
+//@   modifies b[*], ioN, ioLastN, ioLastNil, dlRead, dlFail
+//@   ensures [once] ioN == old(ioN) || ioN == old(ioN) + 1
+//@   ensures [n] ioN == old(ioN) + 1 ==> n == ioLastN
+//@   ensures [closed] ioN == old(ioN) ==> n == 0 && err != nil
+//@   ensures [error] ioN == old(ioN) + 1 && !ioLastNil ==> err != nil
+//@   ensures [clean] !dlFail ==> dlRead[ref(p.nextConn)] == old(dlRead[ref(p.nextConn)]) || dlRead[ref(p.nextConn)] == 0
+
+//@ func (p *packetConn) WriteToContext$1()
+//@   requires p != nil && p.nextConn != nil && ctx != nil && done != nil
+//@   modifies dlWrite, dlFail
+//@   ensures [restore] !dlFail ==> dlWrite[ref(p.nextConn)] == old(dlWrite[ref(p.nextConn)]) || dlWrite[ref(p.nextConn)] == 0
+//@   ensures [others] forall k mathint :: {dlWrite[k]} k != ref(p.nextConn) ==> dlWrite[k] == old(dlWrite[k])
+//@   ensures [mono] old(dlFail) ==> dlFail
+
+//@ func (p *packetConn) WriteToContext(ctx context.Context, b []byte, raddr net.Addr) (n int, err error)
+//@   requires p.nextConn != nil && ctx != nil && p.closed != nil
+//@   modifies ioN, ioLastN, ioLastNil, dlWrite, dlFail
+//@   ensures [once] ioN == old(ioN) || ioN == old(ioN) + 1
+//@   ensures [n] ioN == old(ioN) + 1 ==> n == ioLastN
+//@   ensures [closed] ioN == old(ioN) ==> n == 0 && err != nil
+//@   ensures [error] ioN == old(ioN) + 1 && !ioLastNil ==> err != nil
+//@   ensures [clean] !dlFail ==> dlWrite[ref(p.nextConn)] == old(dlWrite[ref(p.nextConn)]) || dlWrite[ref(p.nextConn)] == 0
+
+//@ property C17: conn.ReadContext$1, conn.ReadContext, conn.WriteContext$1, conn.WriteContext, packetConn.ReadFromContext$1, packetConn.ReadFromContext, packetConn.WriteToContext$1, packetConn.WriteToContext
